@@ -120,6 +120,8 @@ def _jsonable(x):
         return [_jsonable(i) for i in x]
     if isinstance(x, (list, set, frozenset)):
         return [_jsonable(i) for i in x]
+    if isinstance(x, dict):
+        return {str(k): _jsonable(v) for k, v in x.items()}
     if isinstance(x, (str, int, float, bool)) or x is None:
         return x
     return repr(x)
